@@ -161,8 +161,10 @@ fn eval_e(sx: &Sx) -> Option<Option<Range>> {
         ("diff", [a, b]) => {
             let a = eval_e(a)?;
             let b = eval_e(b)?;
+            // `None` stands for the empty set: removing nothing leaves the left operand
             Some(match (a, b) {
                 (Some(a), Some(b)) => a.difference(&b),
+                (Some(a), None) => Some(a),
                 _ => None,
             })
         }
